@@ -15,7 +15,7 @@ CLAIMS = {
              "type graph to a visit_* function and calls process_* before descending; each lowering rule's processor names its construct in a "
              "callback whose node kind contains every slot where the construct can sit, and writes every slot-valued construct; stack-keeping "
              "post-processors push/pop for the same node kinds; every Luau-only variant is classified with its lowering rule. It does not decide "
-             "that hand-built replacements are free of the construct nor the strict-Lua-5.1 corollary.",
+             "that hand-built replacements are free of the construct nor the strict-Lua-5.1 corollary. The number-lowering processor is evaluated on literals with tokens and trivia; what every generator then writes is a Lua 5.1 number.",
         note="Coverage is per (ADT, slot), not path-sensitive; reviewed tables: visitors.VISIT_EXEMPT_*, c07.RULES, c07.CLASSIFY. " + TB,
         ref="DESIGN.md §3 C07"),
     "C18": dict(
@@ -23,7 +23,7 @@ CLAIMS = {
         text="For all inputs: every AST slot that can hold a Token is reached by each of the three comment/whitespace walkers (so exactly the "
              "selected trivia kind can disappear everywhere), the walkers mutate nothing but Token trivia (code tokens cannot change), the retain "
              "predicates keep every trivia of the other kind, append_text_comment shifts lines only for location=start, and the emitted long-comment "
-             "closer is the value tested absent from the text. Regex semantics of `except` and single-line text content are not decided. The generator's line/long comment classifier is evaluated on the opener grammar `--[=*[` up to level 6; the comment text builder on every subset of closers occurring in the text.",
+             "closer is the value tested absent from the text. Regex semantics of `except` and single-line text content are not decided. The generator's line/long comment classifier is evaluated on the opener grammar `--[=*[` up to level 6; the comment text builder on every subset of closers occurring in the text. No generator writes `{{` for an interpolated value starting with a table (36 trivia layouts), and a comment kept next to a `-` never absorbs it.",
         note="Coverage is per (ADT, slot) over the walker family; std mutators classified by name. " + TB,
         ref="DESIGN.md §3 C18"),
 }
@@ -35,14 +35,14 @@ CLAIMS.update({
              "stored from the parse tree, every token-bearing AST slot is handed to a writer of the token-based generator (nothing stored can be "
              "dropped on output), dispatch uses stored tokens, trivia/content emission order is leading-content-trailing, and retain_lines selects the "
              "preserving parser + token-based generator. Two genuine replay gaps pinned by existing snapshots are recorded as known findings. "
-             "Spacing and parenthesis decisions are not decided.",
+             "Spacing and parenthesis decisions are not decided. required_nil_values is tabulated (a `const` whose last value is a call or `...` gets no `nil` appended).",
         note="Coverage per (ADT, slot), not path-sensitive; full_moon accessor list from its crate metadata. " + TB,
         ref="DESIGN.md §3 C03"),
     "C04": dict(
         technique="static analysis: token-slot coverage of shift_token_line, Position variant tables, MIR path rule for inserted lines, who-may-write rule on the generator's output/line counter; finite-domain evaluation of the anchored decision/transfer functions from their typed tree (abstract interpretation over enumerated abstract domains, sa/peval.py)",
         text="For all inputs: shift_token_line reaches every token slot; replacing token content keeps the recorded line; inserted lines are "
              "compensated exactly where they are inserted (append_text_comment only at start; bundler running total); the token-based generator's "
-             "line counter is exact and monotone and padding precedes content; no token is shifted through two routes in one traversal; lines::block_total counts a block whose last token spans several lines correctly. Does not decide that arbitrary pipelines never emit a token whose line is already passed.",
+             "line counter is exact and monotone and padding precedes content; no token is shifted through two routes in one traversal; lines::block_total counts a block whose last token spans several lines correctly. Does not decide that arbitrary pipelines never emit a token whose line is already passed. The line counter and the placement of tokens are decided by evaluating the line-keeping generator on 336 token/trivia scenarios (counter = start + newlines written; every token on max(recorded line, line reached)).",
         note="Unrecognised idioms for writing the output buffer fail closed. " + TB,
         ref="DESIGN.md §3 C04"),
     "C12": dict(
@@ -50,7 +50,7 @@ CLAIMS.update({
         text="Narrow structural part of crash-freedom, for all inputs: foreign-text token references are always replaced before a required block is "
              "walked/spliced, replace_referenced_tokens reaches every token slot, the converter's own call graph is acyclic (iterative conversion), "
              "Parser::parse is fallible and panic-free and maps both error kinds, the worker never unwraps rule/parse results. Panic-freedom of "
-             "arbitrary rule pipelines is NOT decided (value reasoning); a census of panic sites is informational only.",
+             "arbitrary rule pipelines is NOT decided (value reasoning); a census of panic sites is informational only. The text given to full_moon is Parser::parse's own parameter (copies allowed, edits not), because recorded token ranges index the caller's text.",
         note="full_moon's own recursion is outside the claim. " + TB,
         ref="DESIGN.md §3 C12"),
 })
@@ -61,7 +61,7 @@ CLAIMS.update({
         text="Necessary conditions of incremental==fresh, for all histories: configuration fingerprint compared before work and over the whole "
              "serialized configuration, every notification restarts dependents, queued deletions run on every successful pass, graph nodes are "
              "unlinked before removal (no stale index can be restarted), only reset() shrinks the dependency map, dependencies are recorded on "
-             "failure too. Equality of output trees over histories is NOT decided.",
+             "failure too. Equality of output trees over histories is NOT decided. While node indices are cached in other fields and nodes are removed, the graph type keeps indices stable (StableGraph).",
         note="Histories are not explored; the fingerprint is as fine as Configuration's Serialize output (C19). " + TB,
         ref="DESIGN.md §3 C10"),
     "C11": dict(
@@ -69,7 +69,7 @@ CLAIMS.update({
         text="For all batches: outputs are written only by the reviewed writer, after the whole rule loop and never on a rule's error edge; every "
              "non-filtered success passes the write; BufWriters are flushed with the error propagated; a failing item is stored in its own status and "
              "only fail-fast leaves the loop; batch-global mutable state is the reviewed .luaurc cache, written only under its lookup key and cleared "
-             "per pass; every iteration over a HashMap/HashSet is order-insensitive, totally sorted, or reviewed. Directory walking and path arithmetic are not decided. The input walk follows symbolic links (no link-level metadata queries).",
+             "per pass; every iteration over a HashMap/HashSet is order-insensitive, totally sorted, or reviewed. Directory walking and path arithmetic are not decided. The input walk follows symbolic links (no link-level metadata queries). collect_work is evaluated for every spelling of the input directory (`.`, `./`, `src/`, ...) and output: one item per file at the mirrored path; a rule object with interior-mutable state processes a second file as a fresh object would; the top-level filter table is independent of the rule list.",
         note="Top-level file filters: documented 'skipped entirely' is taken as intended (no output for filtered files). " + TB,
         ref="DESIGN.md §3 C11"),
     "C19": dict(
@@ -77,7 +77,7 @@ CLAIMS.update({
         text="For all configurations: every configure() rejects unknown keys, configuration structs deny unknown fields, duplicate keys are rejected, "
              "every accepted property key is emitted by the rule's serializer (two known-finding exceptions pinned by snapshots), the generic rule "
              "serializer emits filters exactly when non-empty and uses the bare-name form only for property-less, filter-less rules, keys writing the "
-             "same field are mutually excluded, and the name registries agree. Pattern validity and JSON5 parsing are not decided. configure o serialize_to_properties is evaluated as a round trip for every rule with properties (every accepted key with candidate values of every kind).",
+             "same field are mutually excluded, and the name registries agree. Pattern validity and JSON5 parsing are not decided. configure o serialize_to_properties is evaluated as a round trip for every rule with properties (every accepted key with candidate values of every kind). Every configure() is evaluated with an unknown key and must answer UnexpectedProperty.",
         note="Keys are recognised as string literals in match patterns/insert calls. " + TB,
         ref="DESIGN.md §3 C19"),
     "C20": dict(
@@ -95,7 +95,7 @@ CLAIMS.update({
         text="For all programs, the three mechanisms the property anchors are wired at every site: each dropping/folding act of the default rules is "
              "control-dependent on has_side_effects, each operand hoisted into its parent's place is parenthesised under can_return_multiple_values "
              "(two sites pinned by existing tests are known findings), kept effectful expressions stay in order, every default rule reaches all nesting "
-             "positions (C07.visit), index-removal loops run in reverse, if-expression side effects cover every part that may run. Behavioural equivalence of the rewrites is NOT decided.",
+             "positions (C07.visit), index-removal loops run in reverse, if-expression side effects cover every part that may run. Behavioural equivalence of the rewrites is NOT decided. The scope visitors' event order (values before the declared names, iterator expressions before the loop scope) is checked under this property too (shared with C09.order).",
         note="has_side_effects/can_return_multiple_values/evaluate trusted as analyses (skeleton under C08). " + TB, ref="DESIGN.md §3 C01"),
     "C02": dict(
         technique="static analysis: decision tables extracted from the precedence/associativity/parenthesis functions and should_break_with_space (pattern ranges expanded) vs independent Lua grammar/lexer tables; guard-before-act rules in the three generators; who-may table for fusion-check bypasses; finite-domain evaluation of the anchored decision/transfer functions from their typed tree (abstract interpretation over enumerated abstract domains, sa/peval.py)",
@@ -109,7 +109,7 @@ CLAIMS.update({
         technique="static analysis: visitor-driver typestate from resolved generic arguments, provenance (source-call) rule on the module key, MIR push/pop pairing, error-recording rules",
         text="For all module graphs: every traversal that can inline a require tracks scopes, the path used as module key always comes from the locator "
              "applied to this call's literal and the current source (no memo), the cycle stack is popped on every exit, every failure is recorded and "
-             "reported, module order is insertion order. The wrapper's run-time semantics is not decided.", note=TB, ref="DESIGN.md §3 C05"),
+             "reported, module order is insertion order. The wrapper's run-time semantics is not decided. A required module is handed back only after the scope-tracking walk (MIR must-pass), and the module key passes through a canonicalising function (two spellings of one file give one module).", note=TB, ref="DESIGN.md §3 C05"),
     "C06": dict(
         technique="static analysis: subset relation between variant tables (duplicated-without-temporary vs constant-false has_side_effects), visitor typestate, multi-value guards, fold-direction sibling rule, conservative-unknown rule; finite-domain evaluation of the anchored decision/transfer functions from their typed tree (abstract interpretation over enumerated abstract domains, sa/peval.py)",
         text="For all programs: what remove_compound_assignment duplicates is effect-free by has_side_effects' own table, scope-dependent lowering "
@@ -127,24 +127,24 @@ CLAIMS.update({
         technique="static analysis: event-order rules on both scope visitors, complete identifier-slot classification over the AST type graph, guard rules on name generation and recycling; finite-domain evaluation of the anchored decision/transfer functions from their typed tree (abstract interpretation over enumerated abstract domains, sa/peval.py)",
         text="For all programs: Lua's visibility rules hold as ordering constraints between push/insert/visit/pop in both scope visitors, every "
              "identifier slot is classified and only references/declarations reach the renamer, generated names are pooled or filtered against "
-             "keywords/globals/function names collected before the walk, and only names flagged reusable are recycled. Pool/global interaction with detection off is not decided. The set of collected globals only ever grows (who-may rule); RenameProcessor's scope callbacks are evaluated as transfer functions (kept names never recycled, pool order independent of hash order).",
+             "keywords/globals/function names collected before the walk, and only names flagged reusable are recycled. Pool/global interaction with detection off is not decided. The set of collected globals only ever grows (who-may rule); RenameProcessor's scope callbacks are evaluated as transfer functions (kept names never recycled, pool order independent of hash order). The real name generator issues 3000 pairwise distinct live names.",
         note=TB, ref="DESIGN.md §3 C09"),
     "C14": dict(
         technique="static analysis: guard-before-act rule (is_valid_identifier) at every construction of a name from a run-time string, keyword table, totality of the serializer's method set; finite-domain evaluation of the anchored decision/transfer functions from their typed tree (abstract interpretation over enumerated abstract domains, sa/peval.py)",
         text="For all documents: a key is emitted as a bare name only under is_valid_identifier (which refuses the 21 reserved words, the empty string and "
              "a leading digit); every other key takes the bracketed string form; no serialize_* method drops its value; no lossy numeric cast; the long-bracket string form "
-             "is gated by a byte predicate that refuses CR. Literal text otherwise (C13) is not decided.",
+             "is gated by a byte predicate that refuses CR. Literal text otherwise (C13) is not decided. A format's deserializer (library and CLI) instantiated at a generic document type uses that format's own Value.",
         note=TB, ref="DESIGN.md §3 C14"),
     "C16": dict(
         technique="static analysis: decision table over count orderings + guard-before-act rules for the four anchored guards, subset rule for duplicated receivers, visitor typestate; finite-domain evaluation of the anchored decision/transfer functions from their typed tree (abstract interpretation over enumerated abstract domains, sa/peval.py)",
         text="For all programs, the anchored guards hold: merging only with balanced first declaration and after scanning all values for all variables, "
              "local-function conversion only without self reference, `self` prepended exactly for methods, receivers duplicated only when effect-free and, if multi-valued, parenthesised as first argument, "
-             "scope-aware sqrt conversion scope-driven. Full semantics of the refactorings are not decided.", note=TB, ref="DESIGN.md §3 C16"),
+             "scope-aware sqrt conversion scope-driven. Full semantics of the refactorings are not decided. The name finder the guards trust is monotone: searched names never shrink, the found flag is never reset.", note=TB, ref="DESIGN.md §3 C16"),
     "C17": dict(
         technique="static analysis: visitor typestate, sibling-callback guard rule (is_identifier_used before every rewrite), matcher constant agreement, keep/order rules on kept arguments; finite-domain evaluation of the anchored decision/transfer functions from their typed tree (abstract interpretation over enumerated abstract domains, sa/peval.py)",
         text="For all programs: every rewrite in the scope-aware removal/injection processors is guarded by the scope query (sibling callbacks agree), "
              "matchers query the scope for the very name they match, arguments are kept exactly when effectful and stay in source order. Execution "
-             "equivalence with the modified environment is not decided.", note=TB, ref="DESIGN.md §3 C17"),
+             "equivalence with the modified environment is not decided. inject_global_value is evaluated for every spelling (`NAME`, `_G.NAME`, `_G['NAME']`, prefix position) with the root name free and bound.", note=TB, ref="DESIGN.md §3 C17"),
 })
 
 CLAIMS.update({
